@@ -224,8 +224,51 @@ sys.exit(1 if bad else 0)
 '''
 
 
+DUP_OUTPUTS = '''
+# two variables bound to ONE value inside an if-branch / a loop body, both live afterwards: eager / graph (onnxruntime) / plain Python
+import sys
+import numpy as np
+import onnx, onnxruntime as ort
+from onnxscript import script, FLOAT, BOOL, INT64
+from onnxscript import opset18 as op
+@script(default_opset=op)
+def in_branch(x: FLOAT[2], c: BOOL) -> FLOAT[2]:
+    if c:
+        y = x + x
+        z = y
+    else:
+        y = x * 3.0
+        z = x * 5.0
+    return y + z * 10.0
+@script(default_opset=op)
+def in_loop(x: FLOAT[2], n: INT64) -> FLOAT[2]:
+    a = x * 1.0
+    b = x * 2.0
+    for i in range(n):
+        a = a + x
+        b = a
+    return a + b * 10.0
+bad = 0
+x = np.array([1, 2], np.float32)
+for fn, extra, name in ((in_branch, np.array(True), "c"), (in_branch, np.array(False), "c"), (in_loop, np.array(0, np.int64), "n"), (in_loop, np.array(2, np.int64), "n")):
+    m = fn.to_model_proto()
+    eager = np.asarray(fn(x, extra))
+    try:
+        onnx.checker.check_model(m, full_check=True)
+        graph = ort.InferenceSession(m.SerializeToString()).run(None, {"x": x, name: extra})[0]
+    except Exception as e:
+        print(f"{fn.name}({name}={extra}): the emitted model is rejected: {str(e).splitlines()[0][:160]}"); bad += 1; continue
+    if not np.array_equal(graph, eager):
+        subs = [[o.name for o in a.g.output] for nd in m.graph.node for a in nd.attribute if a.g.output]
+        print(f"{fn.name}({name}={extra}): graph {graph.tolist()}, eager {eager.tolist()}; subgraph outputs {subs}"); bad += 1
+sys.exit(1 if bad else 0)
+'''
+
+
 def replay(ob):
     name = ob["name"]
+    if "outputs_are_pairwise_distinct_values" in name:
+        return DUP_OUTPUTS
     if ".converter.assign." in name or name.startswith("Converter._translate_assign_stmt.loop"):
         return PARALLEL_ASSIGN
     if name.startswith("C01.calling."):
